@@ -41,6 +41,9 @@ def materialise(case):
             os.symlink("sub", os.path.join(proj, e))
         elif e == "src/linkdir_out":
             os.symlink("../outside", os.path.join(proj, e))
+        elif e == "src/sub/b.rs.tmp":
+            # a look-alike sibling of an in-scope file that is a link to a file outside the tree
+            os.symlink("../../outside/o_target.rs", os.path.join(proj, e))
         else:
             put(e)
     if case["sd"] == "hidden":
@@ -132,7 +135,7 @@ def run_case(job):
             problems.append(("C15", "edit changed entries outside the project: %s" % sorted(elsewhere)))
         for e in case["layout"]:
             p = os.path.join(proj, (".src" + e[3:]) if case["sd"] == "hidden" and e.startswith("src/") else e)
-            if e.startswith("src/link") and not os.path.islink(p):
+            if (e.startswith("src/link") or e == "src/sub/b.rs.tmp") and not os.path.islink(p):
                 problems.append(("C15", "symbolic link %s was replaced" % e))
         if expected:
             if r2.exit_class != 0:
